@@ -97,6 +97,8 @@ class ExprMixin:
             return V(ty, ty.some(self.coerce(v, ty.elem, node).z))
         if isinstance(ty, T.ObjT) and isinstance(v.ty, T.ObjT) and ty.root == v.ty.root:
             return V(ty, v.z)   # up/down cast inside one class hierarchy (same sort)
+        if hasattr(ty, "dt") and v.ty == ty.dt:
+            return V(ty, v.z)     # a dict seen through its items()/values() view
         if (v.ty.name, ty.name) in self.coerce_hooks:
             return self.coerce_hooks[(v.ty.name, ty.name)](self, v)
         if isinstance(ty, T.SetT) and isinstance(v.ty, T.ListV) and v.ty.elem == ty.elem:
@@ -644,6 +646,8 @@ class ExprMixin:
 
     def contains(self, coll, x, st, n):
         t = coll.ty
+        if t.name in self.contains_hooks:
+            return self.contains_hooks[t.name](self, coll, x)
         if isinstance(t, T.SetT):
             return z3.Select(coll.z, self.coerce(x, t.elem, n).z)
         if isinstance(t, T.ListV):
@@ -654,6 +658,8 @@ class ExprMixin:
             return z3.Select(t.dom(coll.z), self.coerce(x, t.key, n).z)
         if t is T.STR:
             return z3.Contains(coll.z, self.coerce(x, T.STR, n).z)
+        if isinstance(t, T.TupT):
+            return zor(*[self.equal(x, V(e, t.get(coll.z, i)), n) for i, e in enumerate(t.elems)])
         if isinstance(t, T.Opt):
             # membership in an optional collection: only meaningful when present
             return self.contains(V(t.elem, t.get(coll.z)), x, st, n)
@@ -795,6 +801,9 @@ class ExprMixin:
     def subscript(self, base, idx, st, sink, n):
         t = base.ty
         code = st.mode != "spec"
+        if t.name in self.subscript_hooks:
+            yield from self.subscript_hooks[t.name](self, base, idx, st, sink, n)
+            return
         if isinstance(t, T.DictT):
             k = self.coerce(idx, t.key, n).z
             present = z3.Select(t.dom(base.z), k)
@@ -1010,6 +1019,17 @@ class ExprMixin:
         return res[0]
 
     def ev_ListComp(self, n, st, sink):
+        if len(n.generators) == 1 and not n.generators[0].ifs and isinstance(n, ast.GeneratorExp):
+            # generator over a concrete python tuple (e.g. a module-level table of functions): kept lazy
+            res = []
+            sk = []
+            for st1, it in self.evx(n.generators[0].iter, st, sk):
+                res.append((st1, it))
+            if len(res) == 1 and not sk and res[0][1].ty is T.PY and isinstance(res[0][1].z, (tuple, list)) \
+                    and not (res[0][1].z and res[0][1].z[0] in ("pytuple", "universe", "range", "enumerate")):
+                yield res[0][0], V(T.PY, ("pygen", n, dict(st.env), list(res[0][1].z)))
+                return
+            sink.extend(sk)
         bound, guard, (v,), st2 = self._comp_image(n, [n.elt], st, sink)
         if v.ty in (T.PY, T.FUN):
             raise Unsupported("comprehension producing opaque values", n)
